@@ -101,6 +101,7 @@ type Parser struct {
 	exprLevel int // < 0: in control clause, >= 0: in expression
 	syncPos   Pos // last sync position
 	syncCount int // number of advance calls without progress
+	nestLev   int // current nesting depth of expressions and statements
 	trace     bool
 	indent    int
 	traceOut  io.Writer
@@ -159,6 +160,8 @@ func (p *Parser) parseExpr() Expr {
 	if p.trace {
 		defer untracep(tracep(p, "Expression"))
 	}
+	p.incNestLev()
+	defer p.decNestLev()
 
 	expr := p.parseBinaryExpr(token.LowestPrec + 1)
 
@@ -214,6 +217,8 @@ func (p *Parser) parseUnaryExpr() Expr {
 	if p.trace {
 		defer untracep(tracep(p, "UnaryExpression"))
 	}
+	p.incNestLev()
+	defer p.decNestLev()
 
 	switch p.token {
 	case token.Add, token.Sub, token.Not, token.Xor:
@@ -678,6 +683,8 @@ func (p *Parser) parseStmt() (stmt Stmt) {
 	if p.trace {
 		defer untracep(tracep(p, "Statement"))
 	}
+	p.incNestLev()
+	defer p.decNestLev()
 
 	switch p.token {
 	case // simple statements
@@ -805,6 +812,8 @@ func (p *Parser) parseIfStmt() Stmt {
 	if p.trace {
 		defer untracep(tracep(p, "IfStmt"))
 	}
+	p.incNestLev()
+	defer p.decNestLev()
 
 	pos := p.expect(token.If)
 	init, cond := p.parseIfHeader()
@@ -1130,6 +1139,23 @@ func (p *Parser) advance(to map[token.Token]bool) {
 			}
 		}
 	}
+}
+
+// maxNestLev bounds the recursion of the parser (nested expressions and
+// statements). Without a bound a few megabytes of "((((" overflow the Go
+// stack, which is fatal to the host process.
+const maxNestLev = 10000
+
+func (p *Parser) incNestLev() {
+	p.nestLev++
+	if p.nestLev > maxNestLev {
+		p.error(p.pos, "exceeded max nesting depth")
+		panic(bailout{})
+	}
+}
+
+func (p *Parser) decNestLev() {
+	p.nestLev--
 }
 
 func (p *Parser) error(pos Pos, msg string) {
